@@ -12,6 +12,9 @@ CODEC = BASE + ['Proofs/CodecP.v']
 
 COMPARE = CODEC + ['Proofs/CompareP.v']
 
+HASH = CODEC + ['Proofs/HashP.v', 'Proofs/TreeP.v']
+STREAMS = ['Proofs/SinksP.v', 'Proofs/StreamsP.v']
+
 PROPS = {
     'C02': dict(
         families=['codec'], reports=['codec_enc', 'codec_dec'], consts=True,
@@ -43,5 +46,42 @@ PROPS = {
         proof_files=COMPARE,
         theorems='c07_routes_agree, c07_bytes_route, c07_segmented_route, c07_segments_like_unsplit, c07_segments_prefix',
         assumptions=['domain as C06; payload lengths < 2^56 (8 uvarint bytes, the decoder limit)'],
+    ),
+    'C09': dict(
+        families=['hash'], reports=['hash'], consts=True,
+        proof_files=HASH,
+        theorems='c09_sink, c09_sink_first_value, c09_sink_last_event, c09_fill, c09_build_with_hash, c09_empty, c09_unclosed, c09_injective (for every hash function H)',
+        assumptions=['digests are compared inside Coq for FNV-128 / FNV-128a (Base/Fnv.v); sha256, sha1, md5 and seeded maphash against an independent Go reference of the Merkle function',
+                     'collision resistance is an assumption about H (c09_injective is stated for an injective fixed-length H)'],
+    ),
+    'C10': dict(
+        families=['hash'], reports=['refs'], consts=True,
+        proof_files=HASH,
+        theorems='c10_subst_hash, c10_subst_stream_hash, c10_iterfunc_is_subst, c10_deref_restores, c10_declined_pass_through, c10_resolver_error',
+        assumptions=['antichains are given by the stream indices of the selected nodes; exhaustive over node subsets for trees with <= 7 value nodes'],
+    ),
+    'C12': dict(
+        families=['hash'], reports=['tree'], consts=True,
+        proof_files=HASH,
+        theorems='c12_children, c12_build_iter, c12_stray_end, c12_stray_end_first, c12_more_than_one, c12_fill_hashes, c12_with_hash_nodes, c12_find_complete, c12_find_sound, c12_find_result_hash, c12_not_found',
+        assumptions=['lookup of an end marker\'s own hash returns the bare marker (second disjunct of c12_find_sound): outside "sub-values", recorded'],
+    ),
+    'C13': dict(
+        families=['streams', 'hash'], reports=['proc', 'refs', 'tree'],
+        proof_files=STREAMS,
+        theorems='c13_run_is_den, c13_tee, c13_iter_stream, c13_concat, c13_filter, c13_run_tee (+ the identity stages proved under C02, C10, C12)',
+        assumptions=['Tee side sinks in the adequacy theorem are plain recorders (tame); failing side sinks are covered by C15'],
+    ),
+    'C14': dict(
+        families=['streams'], reports=['copy'],
+        proof_files=STREAMS,
+        theorems='c14_copy_delivery, c14_copy_pulls, c14_copy_no_sinks, c14_filter_sink, c14_concat_sinks, c14_concat_sinks_nary, c14_alt_sink, c14_alt_empty_accepts, c14_collect_value, c14_collect_value_stray_end, c14_collect_value_unclosed, c14_tee_transparent',
+        assumptions=['a sink that never returns nil makes Copy/Tee re-deliver the end-of-stream signal forever; such sinks are outside the quantifier (recording sinks return nil on EOS)'],
+    ),
+    'C15': dict(
+        families=['codec', 'streams'], reports=['codec_wfault', 'codec_dec', 'copy', 'proc'],
+        proof_files=CODEC + STREAMS,
+        theorems='c15_writer_fault, c15_writer_fault_prefix, c15_reader_fault_never_done, c15_reader_fault_tokens, c15_reader_fault_offset, c15_source_fault_copy, c15_sink_fault_copy, c15_stream_fault_prefix, c15_clean_end_means_no_fault, c15_fail_*',
+        assumptions=['an injected reader error is reported by a call of its own (a reader returning data together with a non-EOF error may lose the final token: io.ReadFull contract)'],
     ),
 }
